@@ -273,7 +273,13 @@ def plan(prop, tier, seed, find):
                     nontrivial=("decided sub-case with >= 2 explored paths", lambda r: r["paths"] >= 2), kani=["C13"])
     if prop == "C20":
         b = _dd_bundles(tier, seed, find, "C20", ["relaxed", "restricted", "exact"], [1, 2], extra_fams=(tier != "quick"), viz_all=True)
-        return dict(engine="symx", bundles=b, prefixes=["C20:"], vacuity=dict(viz_checked=1), functions=FUNCS_DD, bounds=bound_dd + "; all 64 flag combinations on every explored path",
+        # diagrams compiled against a non-empty cache (solver-step replay of the C09 harness): nodes pruned by a threshold
+        ii = 0
+        for k in range(4 if tier == "quick" else 16):
+            for dd in DD3:
+                ii += 1
+                b.append(P(kind="dd", dd=dd, comp="relaxed", seed=seed * 1000 + 800 + k, width="1,2", roots="0", rub="none", lb=("sym" if ii % 2 else "none"), hist=3, hist_seed=ii % 3, rev=0, props="C09step,C20".replace("C09step", "C09"), n=4, b=2, d=2, setnext=1, nsym=6, viz_all=(1 if ii % 3 == 0 else 0), **_limits(tier)))
+        return dict(engine="symx", bundles=b, prefixes=["C20:"], vacuity=dict(viz_checked=1, cache_hit_in_compile=1), functions=FUNCS_DD, bounds=bound_dd + "; all 64 flag combinations on every explored path",
                     nontrivial=("decided sub-case with >= 2 explored paths", lambda r: r["paths"] >= 2))
     bound_solve = ("table models over mask states: n<=4 variables, <=3 base states, 2 decisions, 4-6 symbolic arc costs in +-10^6 (the other costs concrete, seeded), "
                    "configurations {LEL, frontier, pooled} x {no cache, SimpleCache} x {SimpleFringe, NoDupFringe} x widths {1, 2, NbUnassigned} x rub {none, h+symbolic slack} x both rankings; per sub-case budget %s" % _limits(tier))
@@ -420,6 +426,10 @@ def plan(prop, tier, seed, find):
             for dd in DD3:
                 for ca in ("0", "1"):
                     b.append(P(kind="knap", dd=dd, cache=ca, dom="full,partial", width="1,2", fringe=("nodup" if k % 2 else "simple"), n=4, nsym=3, seed=base + 50 + k, props="C10", **limk))
+        # deeper: 5 items, 4 symbolic profits, cache on (dominance thresholds feed the cache thresholds), many instances
+        limk2 = dict(max_paths=2000, max_secs=30) if tier == "quick" else dict(max_paths=40000, max_secs=900)
+        for k in range(14 if tier == "quick" else 48):
+            b.append(P(kind="knap", dd=DD3[k % 3], cache=1, dom=("partial" if k % 4 == 3 else "full"), width="1,2", fringe=("nodup" if k % 5 == 4 else "simple"), n=5, nsym=4, seed=base + 1 + k, props="C10", **limk2))
         return dict(engine="symx", bundles=b, prefixes=["C10:"], vacuity=dict(dominated=1, explored_ge2=1), functions=["ddo::SimpleDominanceChecker::{new, is_dominated_or_insert, cmp}", "ddo::Dominance::{partial_cmp, cmp} (Kani, [isize;3])"],
                     bounds="sequences of 3 (thorough 4) queries + 2 probes, key pattern seeded (same / different / no key), 2 coordinates and the value of every query symbolic in +-100, with and without value; reference keeps every recorded state; solver level: 4-item knapsacks (seeded weights/capacity, 3 symbolic profits in -50..100) with the rule 'more capacity and more value dominates' on all layers and on even layers only, all diagram types, cache on/off, widths 1-2",
                     nontrivial=("decided sequence in which at least one query was reported dominated", lambda r: r["notes"].get("dominated", 0) > 0), kani=["C10"])
